@@ -1443,6 +1443,19 @@ def check_subclass_typestate(ctx):
         calls_super = any(isinstance(c, ast.Call) and isinstance(c.func, ast.Attribute) and c.func.attr == "__init__"
                           and isinstance(c.func.value, ast.Call) and A.call_name(c.func.value) == "super" for c in A.walk_local(init))
         if calls_super:
+            # Selector.__init__ dispatches on the *type* of its argument (a class becomes an isinstance test, a list an Or ...);
+            # a subclass whose argument is a predicate to be *called* must not hand it to that dispatch
+            sup = [c for c in A.walk_local(init) if isinstance(c, ast.Call) and isinstance(c.func, ast.Attribute) and c.func.attr == "__init__"
+                   and isinstance(c.func.value, ast.Call) and A.call_name(c.func.value) == "super"]
+            callables = {A.src(t.args[0]) for t in A.walk_local(init) if isinstance(t, ast.Call) and A.call_name(t) == "callable" and len(t.args) == 1}
+            handed = [a for c in sup for a in c.args if isinstance(a, ast.Name) and a.id in callables and a.id in A.func_params(init)]
+            if handed:
+                ctx.violation("C15-g", sup[0], "%s.__init__ hands its predicate `%s` (required to be callable, and called with the "
+                              "sub-context) to Selector.__init__, which interprets its argument by type: a predicate that is a class -- "
+                              "bool, int, dict -- turns into an isinstance test of the sub-context instead of being called, so "
+                              "%s(key, bool) selects other values than the predicate says" % (cls.name, handed[0].id, cls.name),
+                              construct="predicate-to-type-dispatch:%s" % cls.name)
+                continue
             ctx.ok("C15-g", init, "%s.__init__ runs the base constructor" % cls.name)
             continue
         bound = {tg.attr for st in A.walk_local(init) for tg in A.assigned_targets(st) if isinstance(st, (ast.Assign, ast.AugAssign))
